@@ -45,7 +45,9 @@ def decide(pid, names, tier, pool=6):
         for n_ in names:
             if n_ in ('L-sq-q', 'L-sq-r'):
                 _c.QUICK_SKIPPED.append('L %s (U256::square: ~20 min of z3)' % n_)
-        names = [n_ for n_ in names if n_ not in ('L-sq-q', 'L-sq-r')]
+            if n_ == 'L-sop4':
+                _c.QUICK_SKIPPED.append('L L-sop4 (sum_of_products::<4>, 120 paths: ~10 min of z3; the same generic code is decided for N = 2 by L-sop2 under C12)')
+        names = [n_ for n_ in names if n_ not in ('L-sq-q', 'L-sq-r', 'L-sop4')]
     # longer solver budgets only on request: with them the undecided U256::square value goal costs more than an hour
     # before it is withdrawn again (measured), which helps nobody in a registered command
     budgets = '20000,600000' if (tier != 'quick' and os.environ.get('VERIF_L_LONG')) else '10000,120000'
